@@ -782,13 +782,138 @@ def _enclosing_case_tokens(idx, f, call, rev):
     return out
 
 
+def rule_termination(rep, idx, rid='R8'):
+    """A termination measure for the layout iteration, decided structurally."""
+    rep.rule(rid, 'termination measure: (i) the flag that keeps the layout iteration running is set only from the result of the '
+             'reference-size setter, (ii) that setter never shrinks a size and reports true only when the size grew, (iii) sizes are '
+             'bounded by 8 bytes; hence at most 7 x (number of references) + 1 passes, and the inner growth loop is bounded too', floor=4)
+    f = idx.func('hexasm::CodeGen::resolveLabels')
+    where = pos(f.node) + ' hexasm::CodeGen::resolveLabels'
+    loops = [n for n in children(f.body) if n['kind'] in ('WhileStmt', 'DoStmt')]
+    outer = loops[0] if len(loops) == 1 else None
+    if outer is None:
+        rep.add(rid, 'single-iteration-loop', False, where, '%d top-level loops' % len(loops))
+        return
+    cc = children(outer)
+    cond = cc[0] if outer['kind'] == 'WhileStmt' else cc[1]
+    fid = cast.decl_ref(cond)
+    flag_only = fid is not None
+    if not flag_only:
+        # an unrecognised termination idiom is not a violation: the measure simply cannot be established by this rule
+        rep.undecided(rid, 'loop-runs-on-a-flag', 'the layout loop does not run on a plain change flag: termination idiom not recognised', pos(cond))
+        return
+    rep.add(rid, 'loop-runs-on-a-flag', True, pos(cond) + ' resolveLabels', 'the loop condition is the bool local `%s`' % strip_name(cond), nontrivial=False)
+    # (i) every assignment of true to the flag inside the loop is controlled by / taken from a size-setter result
+    setters = set()
+    for m in idx.record('hexasm::InstrLabel').methods:
+        if m.body is None or 'bool' not in m.type.split('(')[0]:
+            continue
+        writes = {cast.member_ref(children(x)[0])[0] for x in walk(m.body)
+                  if x['kind'] in ('BinaryOperator', 'CompoundAssignOperator') and x.get('opcode') in ('=', '+=', '|=') and cast.member_ref(children(x)[0])}
+        gs = idx.func('hexasm::InstrLabel::getSize')
+        size_fields = {x['name'] for x in walk(gs.body) if x['kind'] == 'MemberExpr' and cast.is_this_member(x)}
+        if writes & size_fields:
+            setters.add(m.qname)
+    body = cc[1] if outer['kind'] == 'WhileStmt' else cc[0]
+    bad_sets = []
+    n_sets = 0
+    parents = {}
+    for n in walk(body):
+        for c in children(n):
+            parents[id(c)] = n
+    for x in walk(body):
+        tgt = None
+        if x['kind'] == 'BinaryOperator' and x.get('opcode') == '=' and cast.decl_ref(children(x)[0]) == fid:
+            v = cast.const_int(children(x)[1], idx)
+            if v == 0:
+                continue
+            n_sets += 1
+            ok = False
+            # value is a setter call, or the assignment sits in an if whose condition is a setter call
+            for c in cast.calls_in(children(x)[1]):
+                g = idx.func_by_id.get(callee_of(c)[2])
+                if g is not None and g.qname in setters:
+                    ok = True
+            p_ = x
+            while id(p_) in parents and not ok:
+                p_ = parents[id(p_)]
+                if p_['kind'] == 'IfStmt':
+                    for c in cast.calls_in(children(p_)[0]):
+                        g = idx.func_by_id.get(callee_of(c)[2])
+                        if g is not None and g.qname in setters:
+                            ok = True
+            if not ok:
+                bad_sets.append(pos(x))
+        if x['kind'] == 'CompoundAssignOperator' and cast.decl_ref(children(x)[0]) == fid:
+            n_sets += 1
+            ok = any((idx.func_by_id.get(callee_of(c)[2]) is not None and idx.func_by_id[callee_of(c)[2]].qname in setters) for c in cast.calls_in(children(x)[1]))
+            if not ok:
+                bad_sets.append(pos(x))
+    rep.add(rid, 'flag-set-only-when-a-size-grew', n_sets > 0 and not bad_sets and bool(setters), where,
+            ('the flag is also set at %s from something other than %s' % (bad_sets, sorted(setters))) if bad_sets else
+            '%d assignment(s), all from %s' % (n_sets, sorted(setters)))
+    # (ii) the setter is monotone: interpret it on (old size, new size) classes
+    for q in sorted(setters):
+        m = idx.func(q) if len(idx.funcs_named(q)) == 1 else [g for g in idx.funcs_named(q) if g.body is not None][0]
+        mono = True
+        detail = []
+        for old, new in ((1, 1), (1, 2), (3, 2), (8, 8), (2, 8), (8, 1)):
+            B = Builder(idx)
+            o = B.ref('BR', 'L')
+            o.fields['size'] = const(64, False, old)
+            argv = []
+            for prm in m.params:
+                argv.append(const(64, False, new) if 'size' in prm.get('name', '').lower() else const(32, True, 5))
+            r = B.I.invoke(m, o, argv)
+            after = o.fields.get('size')
+            grew = isinstance(after, IV) and after.concrete() and after.lo > old
+            shrunk = isinstance(after, IV) and after.concrete() and after.lo < old
+            said = isinstance(r, IV) and r.concrete() and r.lo == 1
+            if shrunk or said != grew or (isinstance(after, IV) and after.concrete() and after.lo != max(old, new)):
+                mono = False
+                detail.append('old %d, requested %d -> size %r, returns %r' % (old, new, after, r))
+        rep.add(rid, 'setter-monotone:%s' % q, mono, pos(m.node) + ' ' + q, '; '.join(detail) or 'size := max(size, requested); true iff it grew')
+    # (iii) bounded sizes: operandSize <= 8 over all int classes (C04 partition of numNibbles)
+    osz = idx.func('hexasm::CodeGen::operandSize', required=False) or idx.func('hexasm::InstrImm::getSize')
+    mx = 0
+    ok = True
+    for lo, hi in ((-(1 << 31), -(1 << 31)), (-(1 << 31) + 1, -1), (0, (1 << 31) - 1)):
+        stack = [(lo, hi)]
+        while stack:
+            a, b = stack.pop()
+            I = ivinterp.Interp(idx)
+            try:
+                if osz.cls and osz.cls.endswith('InstrImm'):
+                    o = Obj('hexasm::InstrImm', {'immValue': IV(32, True, a, b, None, 'input')})
+                    r = I.invoke(osz, o, [])
+                else:
+                    r = I.invoke(osz, None, [IV(32, True, a, b, None, 'input')])
+                if not (isinstance(r, IV) and r.concrete()):
+                    raise NeedSplit(None, 'size')
+                mx = max(mx, r.lo)
+                if I.ub:
+                    ok = False
+            except NeedSplit:
+                if a == b:
+                    ok = False
+                    continue
+                mid = (a + b) // 2
+                stack += [(a, mid), (mid + 1, b)]
+    rep.add(rid, 'sizes-bounded', ok and 1 <= mx <= 8, pos(osz.node) + ' ' + osz.qname, 'largest encoding size over all int operands: %d' % mx)
+
+
+def strip_name(n):
+    x = cast.strip(n)
+    return x.get('referencedDecl', {}).get('name', '?')
+
+
 def run(rep, tier):
     idx = cast.load('hexasm.cpp')
     rep.analysed(unit='hexasm.cpp')
     rep.trusted = ['clang 14 AST', 'interval x bit-slice x affine interpreter hexsa/ivinterp.py; abstract programs are built by '
                    'interpreting the directive constructors', 'pc-relative/absolute tables of the property statement']
     rep.assumptions = ['image sizes below 2^22 bytes (memory is 800000 bytes)', 'createLabelMap maps every label name to its directive '
-                       '(last definition wins)', 'termination of the layout iteration is NOT decided by this check (see DESIGN.md)']
+                       '(last definition wins)', 'termination is decided through the measure of R8 (monotone bounded sizes), not for arbitrary rewrites of the loop']
     for q in ('hexasm::CodeGen::resolveLabels', 'hexasm::CodeGen::emitProgramBin', 'hexasm::InstrLabel::getSize'):
         rep.analysed(idx.func(q).sig)
     rule_fixed_point(rep, idx)
@@ -798,3 +923,4 @@ def run(rep, tier):
     rule_layout_emission(rep, idx)
     rule_header(rep, idx)
     rule_relative(rep, idx, tier)
+    rule_termination(rep, idx)
